@@ -114,11 +114,18 @@ class C14(Prop):
     # ----- implementation side
     def run_impl(self, inp):
         from twisted.logger import globalLogPublisher as pub
+        if not C14._frozen:
+            # what exists when the first program is run (modules, the harness) is not garbage: take it out of the collector's
+            # sight, the full collections - the runner under test does one per run - then cost a fraction
+            gc.collect()
+            gc.freeze()
+            C14._frozen = True
         orig = list(pub._observers)
         for o in orig:
             pub.removeObserver(o)
         try:
             scale = REAL_UNIT
+            trace = None
             for attempt in range(4):
                 info = {}
                 trace = self._run(inp, pub, [], scale, info)
@@ -136,11 +143,24 @@ class C14(Prop):
                 raise
             return ['raised', type(e).__name__]
         finally:
-            gc.collect(1)
+            # A failed Deferred the test dropped is logged ("Unhandled error in Deferred") when its DebugInfo is collected.  The
+            # runner consumes those it reports; after a TimeoutError / NoResultError it leaves them behind, in reference cycles.
+            # Collect them now, while only the run's own observers are attached - otherwise Twisted's not-yet-started log system
+            # echoes each of them to stderr at some later collection.  (The run is over: nothing the runner observes changes.)
+            if self._drops(inp) and not (isinstance(trace, list) and len(trace) >= 10 and not trace[1] and trace[9] < inp[0]):
+                # (not needed when the run ended before the timeout without a stop request: the runner consumed them)
+                gc.collect()
+            else:
+                gc.collect(1)
             for o in list(pub._observers):
                 pub.removeObserver(o)
             for o in orig:
                 pub.addObserver(o)
+
+    _frozen = False
+
+    def _drops(self, inp):
+        return any('dropfailed' in st[1] for st in self._stages(inp))
 
     def _run(self, inp, pub, markers, scale, info):
         import testtools
